@@ -316,7 +316,8 @@ type txSpec struct {
 	fee      sdk.Coins
 	signers  []acct // keys used to sign, in GetSigners order (wrong keys for the negative stream)
 	granter  sdk.AccAddress
-	seqDelta int // added to every signer's sequence (1 = wrong sequence)
+	payer    sdk.AccAddress // explicit AuthInfo.Fee.Payer (its key must be among signers, after the message signers)
+	seqDelta int            // added to every signer's sequence (1 = wrong sequence)
 	gas      uint64
 }
 
@@ -351,6 +352,9 @@ func (c *chain) buildTx(check bool, ts txSpec) ([]byte, error) {
 	tb.SetGasLimit(gas)
 	if ts.granter != nil {
 		tb.SetFeeGranter(ts.granter)
+	}
+	if ts.payer != nil {
+		tb.SetFeePayer(ts.payer)
 	}
 	for i, s := range ts.signers {
 		sd := authsign.SignerData{Address: sdk.AccAddress(s.priv.PubKey().Address()).String(), ChainID: chainID,
